@@ -183,7 +183,10 @@ class Checker:
 
     # ------------------------------------------------------------------ helpers
     def rej(self, rule, detail):
-        raise Reject(rule, detail, n=self.cur_n, flags={"after_failure": self.after_failure})
+        raise Reject(rule, detail, n=self.cur_n, flags={
+            "after_failure": self.after_failure,
+            "in_initial": bool(self.stack and self.stack[-1].initial) or self.last_op in ("construct", "activate"),
+        })
 
     def soft(self, rule, detail):
         """A deviation after which the reference stays aligned: recorded, checking continues."""
@@ -445,6 +448,7 @@ class Checker:
         if ev["phase"] == "begin":
             if op != "probe":
                 self.last_op = op
+                self.step_had_write = False
             if op == "construct":
                 self.constructed_over_stored = ev.get("stored") is not None
             if "val" in ev and ev["val"] is not None:
@@ -454,9 +458,14 @@ class Checker:
                 self.expect_construct = True
                 self.queue.clear()
                 self.stack = []
-                if ev.get("stored") is not None:
+                if ev.get("reuse") and self.state is not None:
+                    self.quiet_step = "C11.resume-untouched"
+                    self.constructed_over_stored = True
+                    self.stats["restarts"] = self.stats.get("restarts", 0) + 1
+                elif ev.get("stored") is not None:
                     self.state = ev["stored"]
                     self.quiet_step = "C11.resume-untouched"
+                    self.stats["resumes"] = self.stats.get("resumes", 0) + 1
                 else:
                     self.state = None
                     self.initial_override = ev.get("start")
@@ -506,6 +515,8 @@ class Checker:
         if ev.get("cur") != self.state:
             rule = {"construct": "C11.resume-untouched" if self.constructed_over_stored else "C11.initial-activation",
                     "activate": "C11.initial-activation", "write": "C10.valid-write"}.get(self.last_op, "C01.state-after-event")
+            if getattr(self, "step_had_write", False):
+                rule = "C10.field-after-transition"
             self.rej(rule, f"current_state is {ev.get('cur')} but reference says {self.state} (after {self.last_op})")
         exp_field = repr(self.value_of(self.state))
         if ev.get("field") != exp_field:
@@ -847,7 +858,8 @@ class Checker:
             if ctx.initial and not ctx.assigned:
                 pass
             elif ev.get("cur") != cur:
-                self.rej("C02.view-of-state", f"{ev['cb']} in phase {ctx.phase}: machine.current_state {ev.get('cur')} != {cur}")
+                self.rej("C10.field-after-transition" if getattr(self, "step_had_write", False) else "C02.view-of-state",
+                         f"{ev['cb']} in phase {ctx.phase}: machine.current_state {ev.get('cur')} != {cur}")
             elif ev.get("field") != repr(self.value_of(cur)):
                 self.rej("C10.model-field", f"{ev['cb']}: model field {ev.get('field')} != {self.value_of(cur)!r}")
         if ev.get("model_ok") is False or ev.get("ed_ok") is False:
@@ -1007,6 +1019,7 @@ class Checker:
     def on_cb_write(self, ev):
         """A callback wrote another valid value to the model field (external write in flight)."""
         self.state = ev["target"]
+        self.step_had_write = True
         self.stats["external_writes"] = self.stats.get("external_writes", 0) + 1
         self.stats["writes_in_flight"] = self.stats.get("writes_in_flight", 0) + 1
 
